@@ -18,6 +18,7 @@ import (
 //	reset   bs, fb (first byte of every id), hx (the hashes, for re-execution)
 //	add     h
 //	flush / reopen
+//	flushfail   a flush that failed at its first read of the file (an injected error) and said so
 //
 // After every operation: probe (ids asked) and has (the real answers).  When
 // proj is true the raw file was read back: ent (entry ids in file order, 0 = not
@@ -85,6 +86,15 @@ func (s *session) do(op string, h int, probe []int, proj bool) (bool, error) {
 		err, _ = s.sut.Add(s.u.Hash(h))
 	case "flush":
 		err, _ = s.sut.Flush()
+	case "flushfail":
+		// a flush whose first read of the file fails.  When the flush reports the failure nothing is judged until
+		// the next (successful) flush; when it read nothing, or went on regardless, it is a flush like any other
+		var fired bool
+		err, fired = s.sut.FlushWithReadFault()
+		if fired && err != nil {
+			return true, s.emit(e)
+		}
+		e.Op = "flush"
 	case "reopen":
 		err, _ = s.sut.Reopen()
 	default:
@@ -228,6 +238,12 @@ func generate(rng *rand.Rand, dir string, ntraces, length int, emit func(*Event)
 			case i == tlen-1:
 				ok, err = s.do("reopen", 0, probeSet(rng, n, 1+rng.Intn(n), 12), true)
 			case k < 8 && (t >= 2 || i > bs+80):
+				if rng.Intn(3) == 0 {
+					// the flush fails at its first read of the file and is run again
+					if ok, err = s.do("flushfail", 0, nil, false); err != nil || !ok {
+						break
+					}
+				}
 				ok, err = s.do("flush", 0, probeSet(rng, n, 1+rng.Intn(n), 8), true)
 			case k < 12 && (t >= 2 || i > bs+80):
 				ok, err = s.do("reopen", 0, probeSet(rng, n, 1+rng.Intn(n), 8), true)
